@@ -70,6 +70,44 @@ func runC07(c *Ctx, r *Report) {
 			continue
 		}
 		r.Check(hasGetter(v, t.getter), "R-C07.1", key, v.Pos(), "Hashable."+t.field+" is computed from "+t.getter+"()", "Hashable."+t.field+" is not computed from the entry's "+t.getter+"(): that part of the entry is not bound by the signature")
+		if t.field == "Clock" {
+			// the clock handed on is the entry's clock itself, or a copy whose id AND time both come from it
+			direct := false
+			x := v
+			for k := 0; k < 4; k++ {
+				switch y := x.(type) {
+				case *ssa.MakeInterface:
+					x = y.X
+					continue
+				case *ssa.ChangeType:
+					x = y.X
+					continue
+				case *ssa.ChangeInterface:
+					x = y.X
+					continue
+				}
+				break
+			}
+			if call, ok := x.(*ssa.Call); ok && call.Call.IsInvoke() && call.Call.Method.Name() == "GetClock" {
+				direct = true
+			}
+			gotID, gotTime := false, false
+			for y := range backSlice(v, nil) {
+				if call, ok := y.(*ssa.Call); ok && call.Call.IsInvoke() {
+					if rc, ok := call.Call.Value.(*ssa.Call); ok && rc.Call.IsInvoke() && rc.Call.Method.Name() == "GetClock" {
+						switch call.Call.Method.Name() {
+						case "GetID":
+							gotID = true
+						case "GetTime":
+							gotTime = true
+						}
+					}
+				}
+			}
+			r.Check(direct || (gotID && gotTime), "R-C07.1", r.Key("R-C07.1", th, "hashable-clock-parts", ""), v.Pos(),
+				"the clock handed to the signer is the entry's clock, or a copy built from that clock's own id and time",
+				fmt.Sprintf("the clock handed to the signer is a copy that does not take both parts from the entry's clock (id from GetClock().GetID()=%v, time from GetClock().GetTime()=%v): the part taken from elsewhere (e.g. the key) is signed instead, and the clock's real id or time can be altered without invalidating the signature", gotID, gotTime))
+		}
 	}
 	// ---- toBuffer: json.Marshal argument reads every field
 	stb := p.SSAFunc(tb)
@@ -326,6 +364,20 @@ func runC07(c *Ctx, r *Report) {
 	}
 
 	verifySigDominates(c, r, "R-C07.4")
+	// ---- R-C07.6: verification keeps nothing between calls
+	r.Doc("R-C07.6", "the verification closure (Verify, the signed-bytes builders, key parsing in the identity provider, the keystore's check) keeps no state between calls: a remembered verdict or a remembered parsed key lets a later, different input be checked against the earlier one")
+	{
+		vroot := p.FuncI("entry", "Entry", "Verify").Root()
+		nver := 0
+		for fn := range c.CG.Reach([]*Fn{vroot}, false) {
+			if !p.firstParty(fn.Pkg.Types) || !(inPkgs(p, fn, "entry", "identityprovider", "keystore")) {
+				continue
+			}
+			nver++
+			detScan(c, r, "R-C07.6", fn)
+		}
+		r.Floor("R-C07.6", "functions in the verification closure", nver, 4)
+	}
 }
 
 func isStringish(t types.Type) bool {
